@@ -1,6 +1,6 @@
 (* C02 — emitted events are an exact, minimal, well-formed delta of the
    cache.  Property theorems only. *)
-From KC Require Import Base Cache CacheSpec CacheProps.
+From KC Require Import Base Cache CacheSpec CacheProps CacheEvents.
 
 (* replaying the events of any operation, in order, on the content before it
    yields exactly the content after it *)
@@ -31,3 +31,24 @@ Print Assumptions C02_event_changes.
 Theorem C02_wf_reachable : forall F0 ops, wf_state (run_ops (init_state F0) ops).
 Proof. intros F0 ops. exact (wf_run_ops ops (init_state F0) (wf_init F0)). Qed.
 Print Assumptions C02_wf_reachable.
+
+(* key by key: the events of one synchronisation on a key are exactly the one
+   event that explains what happened to that key (Create only of an absent
+   key, Update only to a strictly newer version, Delete only of a present
+   key), and none if its entry stays: at most one event per key *)
+Theorem C02_sync_events_per_key : forall F c l k,
+  wf_cache c ->
+  kevs k (snd (do_sync F c l)) =
+  match clookup k c, clookup k (fst (do_sync F c l)) with
+  | None, None => []
+  | None, Some e => [mk_event Create (e_obj e)]
+  | Some c0, None => [mk_event Delete (e_obj c0)]
+  | Some c0, Some e => if Z.ltb (e_ver c0) (e_ver e) then [mk_event Update (e_obj e)] else []
+  end.
+Proof. exact sync_events_per_key. Qed.
+Print Assumptions C02_sync_events_per_key.
+
+Theorem C02_sync_at_most_one_event_per_key : forall F c l k,
+  wf_cache c -> length (kevs k (snd (do_sync F c l))) <= 1.
+Proof. exact sync_at_most_one_event_per_key. Qed.
+Print Assumptions C02_sync_at_most_one_event_per_key.
